@@ -19,7 +19,7 @@ LEVEL_TEXT = ("Exhaustive single-edit enumeration per generated walk (every posi
 LEVEL_NOTE = ("Graphs come from the library's own generator (as the property states). heap_size = 1e6 is unrestrictive by "
               "construction here (<= (8k)^|E| combinations); the harness confirms from the statistics that the limit did not "
               "decide the answer. Nothing beyond membership and the detected count is demanded.")
-PLAN = {"quick": dict(shards=16, budget=100), "thorough": dict(shards=32, budget=500)}
+PLAN = {"quick": dict(shards=16, budget=100), "thorough": dict(shards=16, budget=500)}
 RULE = ("G = connect_coding_graph(k, mask, t) for sparse / dense / filter masks, t = 1..3; w = random walk of length n from a "
         "retained start; E = one edit at every position p in [k, n-2k) x {S x3, I x4, D}, and 2-3 edits pairwise >= 3k+2 apart; "
         "repair_dna(apply(E, w), G, v, k, has_indel=True, heap_size=1e6 [, vt_check = VT(w)]). Verdict: detected == |E| => w in "
